@@ -564,7 +564,11 @@ func gridScripts(maxMsg int, pairs bool) []*Script {
 		}
 	}
 	for _, shape := range shapes {
-		out = append(out, &Script{Shape: shape, Ctx: PreCancelled}, &Script{Shape: shape, Ctx: PreExpired})
+		// calls on a dead context: the wrapper's behaviour there goes through selects with several ready cases, so
+		// each is executed several times
+		for rep := 0; rep < 6; rep++ {
+			out = append(out, &Script{Shape: shape, Ctx: PreCancelled}, &Script{Shape: shape, Ctx: PreExpired})
+		}
 		for n := 0; n <= maxMsg; n++ {
 			for m := 0; m <= maxMsg; m++ {
 				if (shape == Unary || shape == UAS) && (n > 0 || m > 0) {
